@@ -20,7 +20,7 @@
 From Coq Require Import List Arith Reals Lra Lia Bool ZArith.
 From SplipyModel Require Import Spec.BSpline Spec.Boehm Spec.Deriv Model.Num Model.BasisDef Model.BasisEval Model.Tensor Model.Obj
   Model.KnotInsert Proofs.KnotList Proofs.Bridge Proofs.SpanCorrect Proofs.TensorLemmas Proofs.EvaluateSpec Proofs.EvalConsequences
-  Proofs.InsertMatrix Proofs.TensorApply Proofs.InsertObj Proofs.AppendProofs Proofs.SeamContinuity.
+  Proofs.InsertMatrix Proofs.TensorApply Proofs.InsertObj Proofs.InsertEndToEnd Proofs.AppendProofs Proofs.SeamContinuity.
 Import ListNotations.
 Open Scope R_scope.
 
@@ -283,3 +283,968 @@ Proof.
     cbn [fst snd]. rewrite (Nat.mod_small i) by lia. lia.
 Qed.
 End Entries.
+
+(* ------------------------------------------------------------------------------------------------ *)
+(* Part 3: canonical periodic knot lists and the model's insert_knot                                *)
+(* ------------------------------------------------------------------------------------------------ *)
+(* p = order, per1 = continuity + 1 >= 1, n = number of (periodic) functions, T = period.
+   The list has n + per1 + p knots, every knot i + n is the exact image of knot i, the start knot
+   kn k (p-1) has multiplicity p - per1 (kn k per1 = kn k (p-1)), and the basis is REGULAR: n >= p + per1 - 1. *)
+Definition per_canon (k : list R) (p per1 n : nat) (T : R) : Prop :=
+  sorted (@kn R NumR k) /\ (1 <= per1)%nat /\ (per1 + 1 <= p)%nat /\ length k = (n + per1 + p)%nat /\
+  (p + per1 - 1 <= n)%nat /\ 0 < T /\ @kn R NumR k per1 = @kn R NumR k (p - 1) /\
+  (forall i, (i + n < length k)%nat -> @kn R NumR k (i + n) = @kn R NumR k i + T).
+
+Definition ind (a b : nat) : R := if (a =? b)%nat then 1 else 0.
+Lemma ind_eq a : ind a a = 1. Proof. unfold ind. rewrite Nat.eqb_refl. reflexivity. Qed.
+Lemma ind_ne a b : a <> b -> ind a b = 0. Proof. intros H. unfold ind. destruct (Nat.eqb_spec a b); [contradiction|reflexivity]. Qed.
+(* the coefficient vector "1 on the class of j": e n j i = [i = j mod n] *)
+Definition ej (n j i : nat) : R := ind (i mod n) j.
+
+Lemma kn_nth (k : list R) i : (i < length k)%nat -> @kn R NumR k i = nth i k 0.
+Proof. intros H. unfold kn. apply nth_indep. exact H. Qed.
+
+(* the general shape of a row relation from the column identities on unwrapped indices *)
+Lemma row_rel_from_cols (k knew : list R) p per1 n W side t :
+  length k = (n + per1 + p)%nat -> length knew = S (length k) ->
+  (forall j, (j < n)%nat ->
+     sumf (fun i => ej n j i * B side (@kn R NumR k) (p - 1) i t) 0 (n + per1)
+     = sumf (fun i => @lookup_last R NumR W (i mod (n + 1)) j * B side (@kn R NumR knew) (p - 1) i t) 0 (n + per1 + 1)) ->
+  row_rel (@ref_row R NumR side k p per1 0 t) (@ref_row R NumR side knew p per1 0 t) (@mat_of_writes R NumR (n + 1) n W).
+Proof.
+  intros Hl Hl' Hcol. unfold row_rel. rewrite !ref_row_length.
+  replace (length k - p - per1)%nat with n by lia. replace (length knew - p - per1)%nat with (n + 1)%nat by lia.
+  split; [unfold mat_of_writes; rewrite map_length, seq_length; reflexivity|]. split.
+  - apply Forall_forall. intros row Hin. unfold mat_of_writes in Hin. apply in_map_iff in Hin.
+    destruct Hin as (r & <- & _). rewrite map_length, seq_length. reflexivity.
+  - intros j Hj. rewrite ref_row_nth by lia.
+    replace (length k - p - per1)%nat with n by lia. replace (length k - p)%nat with (n + per1)%nat by lia.
+    transitivity (sumf (fun i => ej n j i * B side (@kn R NumR k) (p - 1) i t) 0 (n + per1)).
+    { apply sumf_ext. intros i _. unfold ej, ind. destruct (_ =? _)%nat; ring. }
+    rewrite (Hcol j Hj).
+    transitivity (sumf (fun r => sumf (fun i => if (i mod (n + 1) =? r)%nat then B side (@kn R NumR knew) (p - 1) i t else 0) 0 (n + per1 + 1)
+                                 * @lookup_last R NumR W r j) 0 (n + 1)).
+    { rewrite sumf_wrap_swap by lia. apply sumf_ext. intros i _. ring. }
+    apply sumf_ext. intros r Hr. rewrite ref_row_nth by lia.
+    replace (length knew - p - per1)%nat with (n + 1)%nat by lia. replace (length knew - p)%nat with (n + per1 + 1)%nat by lia.
+    rewrite nth_mat_of_writes by lia. reflexivity.
+Qed.
+
+(* in-place loops  kk[wb + i] = g (kk[rb + i]),  i = a .. a+len-1, whose reads are never overwritten *)
+Lemma fold_upd_spec (g : R -> R) wb rb : forall len a (kk : list R),
+  (wb + a + len <= length kk)%nat -> (rb + a + len <= length kk)%nat ->
+  (forall i j, (a <= i < a + len)%nat -> (a <= j < a + len)%nat -> (wb + i <> rb + j)%nat) ->
+  let res := fold_left (fun kk i => upd kk (wb + i) (g (@kn R NumR kk (rb + i)))) (seq a len) kk in
+  length res = length kk /\
+  forall idx, (idx < length kk)%nat ->
+    nth idx res 0 = if (wb + a <=? idx)%nat && (idx <? wb + a + len)%nat then g (nth (rb + (idx - wb)) kk 0) else nth idx kk 0.
+Proof.
+  induction len as [|len IH]; intros a kk Hw Hr Hdis; cbv zeta.
+  - cbn [seq fold_left]. split; [reflexivity|]. intros idx Hi.
+    destruct (Nat.leb_spec (wb + a) idx); destruct (Nat.ltb_spec idx (wb + a + 0)); cbn [andb]; try reflexivity; lia.
+  - cbn [seq fold_left].
+    set (kk1 := upd kk (wb + a) (g (@kn R NumR kk (rb + a)))).
+    assert (L1 : length kk1 = length kk) by apply InsertEndToEnd.upd_length.
+    destruct (IH (S a) kk1) as [IL IN]; [lia|lia|intros i j Hi Hj; apply Hdis; lia|]. cbv zeta in IL, IN.
+    split; [rewrite IL; exact L1|].
+    intros idx Hi. rewrite IN by lia.
+    destruct (Nat.leb_spec (wb + S a) idx) as [A|A]; [destruct (Nat.ltb_spec idx (wb + S a + len)) as [A2|A2]|]; cbn [andb].
+    + destruct (Nat.leb_spec (wb + a) idx); [|lia]. destruct (Nat.ltb_spec idx (wb + a + S len)); [|lia]. cbn [andb].
+      f_equal. unfold kk1. apply InsertEndToEnd.upd_nth_other.
+      intros E. apply (Hdis a (a + (idx - wb - a))%nat); lia.
+    + destruct (Nat.ltb_spec idx (wb + a + S len)); [lia|]. rewrite andb_false_r.
+      unfold kk1. apply InsertEndToEnd.upd_nth_other. lia.
+    + destruct (Nat.eq_dec idx (wb + a)) as [->|Ne].
+      * destruct (Nat.leb_spec (wb + a) (wb + a)); [|lia]. destruct (Nat.ltb_spec (wb + a) (wb + a + S len)); [|lia]. cbn [andb].
+        unfold kk1. rewrite InsertEndToEnd.upd_nth_same by lia.
+        f_equal. replace (wb + a - wb)%nat with a by lia. apply kn_nth. lia.
+      * destruct (Nat.leb_spec (wb + a) idx); [lia|]. cbn [andb].
+        unfold kk1. apply InsertEndToEnd.upd_nth_other. exact Ne.
+Qed.
+
+Section Canon.
+Variable k : list R.
+Variables (p per1 n : nat) (T : R).
+Hypothesis Hcan : per_canon k p per1 n T.
+Local Notation K := (@kn R NumR k).
+Local Notation q := (p - 1)%nat.
+Local Notation r := (per1 - 1)%nat.
+Let HK : sorted K := proj1 Hcan.
+Let Hper1 : (1 <= per1)%nat := proj1 (proj2 Hcan).
+Let Hpp : (per1 + 1 <= p)%nat := proj1 (proj2 (proj2 Hcan)).
+Let Hlen : length k = (n + per1 + p)%nat := proj1 (proj2 (proj2 (proj2 Hcan))).
+Let Hreg : (p + per1 - 1 <= n)%nat := proj1 (proj2 (proj2 (proj2 (proj2 Hcan)))).
+Let HT : 0 < T := proj1 (proj2 (proj2 (proj2 (proj2 (proj2 Hcan))))).
+Let Hseam : K per1 = K (p - 1)%nat := proj1 (proj2 (proj2 (proj2 (proj2 (proj2 (proj2 Hcan)))))).
+Let Himg : forall i, (i + n < length k)%nat -> K (i + n)%nat = K i + T := proj2 (proj2 (proj2 (proj2 (proj2 (proj2 (proj2 Hcan)))))).
+
+Lemma canon_start : @b_start R NumR (mkBasis p k per1) = K (p - 1)%nat.
+Proof. reflexivity. Qed.
+Lemma canon_end : @b_end R NumR (mkBasis p k per1) = K (n + per1)%nat.
+Proof. unfold b_end. cbn [b_knots b_order]. f_equal. lia. Qed.
+Lemma canon_period : K (n + per1)%nat = K (p - 1)%nat + T.
+Proof. replace (n + per1)%nat with (per1 + n)%nat by lia. rewrite Himg by lia. rewrite Hseam. reflexivity. Qed.
+
+Variable x : R.
+Hypothesis Hx : K (p - 1)%nat <= x < K (n + per1)%nat.       (* start <= x < end *)
+Local Notation mu := (@py_bisect_right R NumR k x).
+Local Notation knew0 := (insert_at k mu x).
+Local Notation Wr := (@insert_writes R NumR k p n mu x).
+Local Notation Cmat := (@mat_of_writes R NumR (n + 1) n Wr).
+Local Notation al := (alpha K mu x q).
+
+Lemma mu_bracket_per : (p <= mu <= n + per1)%nat /\ K (mu - 1)%nat <= x < K mu.
+Proof.
+  unfold py_bisect_right.
+  destruct (bisect_right_spec K HK x (length k)) as (A & Bm & Cm). cbv zeta in *.
+  set (m0 := @bisect_right R NumR K x (length k)) in *.
+  assert (R1 : (m0 <= n + per1)%nat).
+  { destruct (Nat.le_gt_cases m0 (n + per1)); [assumption|]. pose proof (Bm (n + per1)%nat ltac:(lia)). lra. }
+  assert (R2 : (p <= m0)%nat).
+  { destruct (Nat.le_gt_cases p m0); [assumption|]. pose proof (Cm (p - 1)%nat ltac:(lia)). lra. }
+  split; [lia|]. split; [apply Bm; lia|apply Cm; lia].
+Qed.
+
+(* what the model returns: the matrix and the (possibly repaired) knot list *)
+Lemma insert_knot_unfold :
+  @basis_insert_knot R NumR (mkBasis p k per1) x
+  = Ok (mkBasis p (if (mu <=? p + r)%nat then @repair_right R NumR knew0 (length knew0) p r
+                   else if (length knew0 - p - r - 1 <=? mu)%nat then @repair_left R NumR knew0 (length knew0) p r
+                   else knew0) per1, Cmat).
+Proof.
+  destruct mu_bracket_per as [Hmu Hbr].
+  unfold basis_insert_knot, wrap_knot. rewrite canon_start, canon_end. unfold b_nfun. cbn [b_per1 b_order b_knots].
+  destruct (Nat.eqb_spec per1 0) as [E|_]; [lia|]. cbn [negb].
+  cbn [nltb nleb NumR]. destruct (Rltb_spec x (K (p - 1)%nat)) as [A1|A1]; [lra|]. destruct (Rleb_spec (K (n + per1)%nat) x) as [A2|A2]; [lra|]. cbn [orb].
+  replace (length k - p - per1)%nat with n by lia.
+  match goal with |- (if negb (forallb ?f ?l) then _ else _) = _ => assert (E : forallb f l = true) end.
+  { apply forallb_forall. intros i Hi. apply in_seq in Hi.
+    repeat (apply andb_true_iff; split).
+    - apply Nat.ltb_lt. lia.
+    - destruct (Rleb_spec (K (i + p - 1)%nat) x) as [L|L]; [apply Nat.ltb_lt|reflexivity].
+      assert (i + p - 1 < mu)%nat; [|lia].
+      destruct (Nat.lt_ge_cases (i + p - 1) mu); [assumption|]. pose proof (HK mu (i + p - 1)%nat ltac:(lia)). lra.
+    - destruct (Rleb_spec (K i) x); [apply Nat.ltb_lt; lia|reflexivity].
+    - destruct (_ && _); [reflexivity|apply Nat.ltb_lt; lia]. }
+  rewrite E. cbn [negb]. reflexivity.
+Qed.
+
+Lemma knew0_length : length knew0 = (n + per1 + p + 1)%nat.
+Proof. rewrite insert_at_length. lia. Qed.
+
+(* the entries of the matrix in Boehm's form as long as mu <= n (all modular indices are identities) *)
+Lemma entries_diag r0 c : (mu <= n)%nat -> (r0 <= n)%nat -> (c < n)%nat ->
+  @lookup_last R NumR Wr r0 c = ind r0 c * al c + ind r0 (c + 1) * (1 - al (c + 1)).
+Proof.
+  intros Hmn Hr Hc. destruct mu_bracket_per as [Hmu Hbr].
+  assert (Hmu1 : (1 <= mu)%nat) by lia.
+  rewrite (insert_matrix_entries_per k p n mu x ltac:(lia) ltac:(lia) ltac:(lia) ltac:(lia) r0 c Hr Hc).
+  destruct (Nat.leb_spec mu r0) as [A|A]; [destruct (Nat.eqb_spec r0 (c + 1)) as [E|E]|]; cbn [andb].
+  - subst r0. rewrite ind_ne by lia. rewrite ind_eq. rewrite (alpha_zero K mu x Hmu1 q (c + 1)) by lia. ring.
+  - destruct (Nat.leb_spec (mu - p) c) as [B1|B1]; [destruct (Nat.ltb_spec c mu) as [B2|B2]|]; cbn [andb].
+    + destruct (Nat.eqb_spec r0 c); [lia|]. destruct (Nat.eqb_spec r0 (c + 1)); [lia|].
+      unfold z1. destruct (Nat.ltb_spec c (mu - p)); [lia|]. cbn [andb]. rewrite !ind_ne by lia. ring.
+    + destruct (Nat.leb_spec (mu - p) (c + n)); destruct (Nat.ltb_spec (c + n) mu); cbn [andb]; try lia.
+      unfold z1. destruct (Nat.ltb_spec c (mu - p)); [lia|]. cbn [andb].
+      rewrite (ind_ne r0 (c + 1)) by lia. rewrite (alpha_zero K mu x Hmu1 q c) by lia. ring.
+    + destruct (Nat.leb_spec (mu - p) (c + n)); destruct (Nat.ltb_spec (c + n) mu); cbn [andb]; try lia.
+      unfold z1. destruct (Nat.eqb_spec r0 c); [lia|]. rewrite andb_false_r. rewrite !ind_ne by lia. ring.
+  - destruct (Nat.leb_spec (mu - p) c) as [B1|B1]; [destruct (Nat.ltb_spec c mu) as [B2|B2]|]; cbn [andb].
+    + rewrite (a_entry_alpha k p mu x HK ltac:(lia) ltac:(lia) Hbr c) by lia.
+      rewrite (b_entry_alpha k p mu x HK ltac:(lia) ltac:(lia) Hbr c) by lia.
+      destruct (Nat.eqb_spec r0 c) as [->|N1].
+      * rewrite ind_eq, ind_ne by lia. ring.
+      * destruct (Nat.eqb_spec r0 (c + 1)) as [->|N2].
+        -- rewrite ind_ne by lia. rewrite ind_eq. ring.
+        -- rewrite !ind_ne by lia. unfold z1. destruct (Nat.ltb_spec c (mu - p)); [lia|]. cbn [andb]. ring.
+    + destruct (Nat.leb_spec (mu - p) (c + n)); destruct (Nat.ltb_spec (c + n) mu); cbn [andb]; try lia.
+      unfold z1. destruct (Nat.ltb_spec c (mu - p)); [lia|]. cbn [andb]. rewrite !ind_ne by lia. ring.
+    + destruct (Nat.leb_spec (mu - p) (c + n)); destruct (Nat.ltb_spec (c + n) mu); cbn [andb]; try lia.
+      unfold z1. destruct (Nat.ltb_spec c (mu - p)); [|lia]. cbn [andb].
+      rewrite (alpha_one K mu x Hmu1 q c) by lia. rewrite (alpha_one K mu x Hmu1 q (c + 1)) by lia.
+      unfold ind. destruct (r0 =? c)%nat; ring.
+Qed.
+
+(* coefficients for the unwrapped new indices 0 .. n: one Boehm step applied to the class indicator *)
+Lemma coef_low j i : (mu <= n)%nat -> (j < n)%nat -> (i <= n)%nat ->
+  @lookup_last R NumR Wr (i mod (n + 1)) j = bcoef K mu x q (ej n j) i.
+Proof.
+  intros Hmn Hj Hi. destruct mu_bracket_per as [Hmu Hbr]. assert (Hmu1 : (1 <= mu)%nat) by lia.
+  rewrite Nat.mod_small by lia. rewrite entries_diag by lia. unfold bcoef, ej.
+  destruct (Nat.eq_dec i n) as [->|Nn].
+  - rewrite (alpha_zero K mu x Hmu1 q n) by lia. rewrite (ind_ne n j) by lia.
+    rewrite (Nat.mod_small (n - 1)) by lia.
+    destruct (Nat.eq_dec n (j + 1)) as [E|E].
+    + rewrite <- E. rewrite ind_eq. replace (n - 1)%nat with j by lia. rewrite ind_eq.
+      rewrite (alpha_zero K mu x Hmu1 q n) by lia. ring.
+    + rewrite (ind_ne n (j + 1)), (ind_ne (n - 1) j) by lia. ring.
+  - rewrite (Nat.mod_small i) by lia.
+    destruct (Nat.eq_dec i 0) as [->|Nz].
+    + cbn [Nat.sub]. rewrite Nat.mod_small by lia. rewrite (alpha_one K mu x Hmu1 q 0) by lia.
+      rewrite (ind_ne 0 (j + 1)) by lia.
+      destruct (Nat.eq_dec 0 j) as [<-|E]; [rewrite ind_eq, (alpha_one K mu x Hmu1 q 0) by lia; ring|rewrite !ind_ne by lia; ring].
+    + rewrite (Nat.mod_small (i - 1)) by lia.
+      destruct (Nat.eq_dec i j) as [->|E1].
+      * rewrite ind_eq. rewrite !ind_ne by lia. ring.
+      * rewrite (ind_ne i j) by lia.
+        destruct (Nat.eq_dec i (j + 1)) as [->|E2].
+        -- rewrite ind_eq. replace (j + 1 - 1)%nat with j by lia. rewrite ind_eq. ring.
+        -- rewrite !ind_ne by lia. ring.
+Qed.
+
+Lemma mod_high s : (s <= n)%nat -> ((n + 1 + s) mod (n + 1) = s)%nat.
+Proof. intros Hs. replace (n + 1 + s)%nat with (s + 1 * (n + 1))%nat by lia. rewrite Nat.mod_add by lia. apply Nat.mod_small. lia. Qed.
+
+Lemma ej_high j s : (s < n)%nat -> ej n j (n + s) = ind s j.
+Proof. intros Hs. unfold ej. rewrite mod_lt2 by lia. f_equal. lia. Qed.
+
+Lemma knew0_K1 idx : (idx <= length k)%nat -> @kn R NumR knew0 idx = k' K mu x idx.
+Proof. intros H. destruct mu_bracket_per as [Hmu _]. apply kn_insert_at_gen; lia. Qed.
+
+Lemma knew0_sorted : sorted (@kn R NumR knew0).
+Proof.
+  apply (insert_knots_sorted k p x HK ltac:(lia) ltac:(lia)).
+  replace (length k - p)%nat with (n + per1)%nat by lia. exact Hx.
+Qed.
+
+(* ---------------- interior: no repair ---------------- *)
+Section Interior.
+Hypothesis Hint : (p + per1 <= mu <= n)%nat.      (* K (p + per1 - 1) <= x < K n, see interior_of_values *)
+
+Lemma interior_knots :
+  (if (mu <=? p + r)%nat then @repair_right R NumR knew0 (length knew0) p r
+   else if (length knew0 - p - r - 1 <=? mu)%nat then @repair_left R NumR knew0 (length knew0) p r
+   else knew0) = knew0.
+Proof.
+  rewrite knew0_length.
+  destruct (Nat.leb_spec mu (p + r)); [lia|]. destruct (Nat.leb_spec (n + per1 + p + 1 - p - r - 1) mu); [lia|]. reflexivity.
+Qed.
+
+Lemma coef_high_interior j s : (j < n)%nat -> (s <= r)%nat ->
+  @lookup_last R NumR Wr ((n + 1 + s) mod (n + 1)) j = bcoef K mu x q (ej n j) (n + 1 + s).
+Proof.
+  intros Hj Hs. destruct mu_bracket_per as [Hmu Hbr]. assert (Hmu1 : (1 <= mu)%nat) by lia.
+  rewrite mod_high by lia. rewrite entries_diag by lia. unfold bcoef.
+  rewrite (alpha_zero K mu x Hmu1 q (n + 1 + s)) by lia.
+  replace (n + 1 + s - 1)%nat with (n + s)%nat by lia. rewrite ej_high by lia.
+  destruct (Nat.eq_dec s j) as [->|E1].
+  - rewrite ind_eq, (ind_ne j (j + 1)) by lia. rewrite (alpha_one K mu x Hmu1 q j) by lia. ring.
+  - rewrite (ind_ne s j) by lia. destruct (Nat.eq_dec s (j + 1)) as [E2|E2].
+    + rewrite <- E2. rewrite ind_eq. rewrite (alpha_one K mu x Hmu1 q s) by lia. ring.
+    + rewrite ind_ne by lia. ring.
+Qed.
+
+Lemma interior_col side t j : (j < n)%nat ->
+  sumf (fun i => ej n j i * B side K q i t) 0 (n + per1)
+  = sumf (fun i => @lookup_last R NumR Wr (i mod (n + 1)) j * B side (@kn R NumR knew0) q i t) 0 (n + per1 + 1).
+Proof.
+  intros Hj. destruct mu_bracket_per as [Hmu [Hb1 Hb2]]. assert (Hmu1 : (1 <= mu)%nat) by lia.
+  rewrite (boehm_sum side K HK mu x Hmu1 Hb1 Hb2 q (ej n j) t (n + per1)) by (left; lia).
+  replace (S (n + per1)) with (n + per1 + 1)%nat by lia.
+  apply sumf_ext. intros i Hi. f_equal.
+  - destruct (Nat.le_gt_cases i n) as [L|L].
+    + symmetry. apply coef_low; lia.
+    + replace i with (n + 1 + (i - n - 1))%nat by lia. symmetry. apply coef_high_interior; lia.
+  - apply SeamContinuity.B_ext. intros m Hm. symmetry. apply knew0_K1. lia.
+Qed.
+
+Theorem interior_row_rel side t :
+  row_rel (@ref_row R NumR side k p per1 0 t) (@ref_row R NumR side knew0 p per1 0 t) Cmat.
+Proof.
+  apply (row_rel_from_cols k knew0 p per1 n Wr side t Hlen); [apply insert_at_length|].
+  intros j Hj. apply interior_col. exact Hj.
+Qed.
+
+Theorem interior_canon : per_canon knew0 p per1 (n + 1) T.
+Proof.
+  destruct mu_bracket_per as [Hmu Hbr]. assert (Hmu1 : (1 <= mu)%nat) by lia.
+  split; [exact knew0_sorted|]. split; [exact Hper1|]. split; [exact Hpp|]. split; [rewrite knew0_length; lia|].
+  split; [lia|]. split; [exact HT|]. split.
+  - rewrite !knew0_K1 by lia. rewrite !(k'_lt K mu x Hmu1) by lia. exact Hseam.
+  - intros i Hi. rewrite knew0_length in Hi. rewrite !knew0_K1 by lia.
+    rewrite (k'_gt K mu x Hmu1) by lia. rewrite (k'_lt K mu x Hmu1) by lia.
+    replace (i + (n + 1) - 1)%nat with (i + n)%nat by lia. apply Himg. lia.
+Qed.
+End Interior.
+
+(* ---------------- right: mu <= p + r, the images of x on the right are repaired ---------------- *)
+Section Right.
+Hypothesis Hright : (mu <= p + r)%nat.
+Local Notation knewR := (@repair_right R NumR knew0 (length knew0) p r).
+Local Notation K1 := (k' K mu x).
+Local Notation mu2 := (mu + n + 1)%nat.
+Local Notation K2 := (k' K1 mu2 (x + T)).
+Local Notation al2 := (alpha K1 mu2 (x + T) q).
+
+Lemma right_knots :
+  (if (mu <=? p + r)%nat then @repair_right R NumR knew0 (length knew0) p r
+   else if (length knew0 - p - r - 1 <=? mu)%nat then @repair_left R NumR knew0 (length knew0) p r
+   else knew0) = knewR.
+Proof. destruct (Nat.leb_spec mu (p + r)); [reflexivity|lia]. Qed.
+
+Lemma knewR_spec : length knewR = length knew0 /\
+  forall idx, (idx < length knew0)%nat ->
+    nth idx knewR 0 = if (n + 1 <=? idx)%nat then nth (idx - (n + 1)) knew0 0 + T else nth idx knew0 0.
+Proof.
+  destruct mu_bracket_per as [Hmu Hbr]. assert (Hmu1 : (1 <= mu)%nat) by lia.
+  pose proof knew0_length as L0.
+  set (k0 := @kn R NumR knew0 0). set (k1 := @kn R NumR knew0 (length knew0 - p - r - 1)).
+  destruct (fold_upd_spec (fun v => k1 + (v - k0)) (length knew0 - p - r - 1) 0 (p + r + 1) 0 knew0) as [FL FN];
+    [lia|lia|intros; lia|]. cbv zeta in FL, FN.
+  change (fold_left _ (seq 0 (p + r + 1)) knew0) with knewR in FL, FN.
+  split; [exact FL|]. intros idx Hi. rewrite (FN idx Hi).
+  assert (E0 : k0 = K 0%nat) by (unfold k0; rewrite knew0_K1 by lia; apply k'_lt; lia).
+  assert (E1 : k1 = K 0%nat + T).
+  { unfold k1. rewrite L0. replace (n + per1 + p + 1 - p - r - 1)%nat with (n + 1)%nat by lia.
+    rewrite knew0_K1 by lia. rewrite (k'_gt K mu x Hmu1) by lia. replace (n + 1 - 1)%nat with (0 + n)%nat by lia.
+    apply Himg. lia. }
+  rewrite L0. replace (n + per1 + p + 1 - p - r - 1)%nat with (n + 1)%nat by lia.
+  destruct (Nat.leb_spec (n + 1) idx) as [A|A].
+  - destruct (Nat.leb_spec (n + 1 + 0) idx); [|lia]. destruct (Nat.ltb_spec idx (n + 1 + 0 + (p + r + 1))); [|lia]. cbn [andb Nat.add].
+    rewrite E0, E1. ring.
+  - destruct (Nat.leb_spec (n + 1 + 0) idx); [lia|]. reflexivity.
+Qed.
+
+Lemma second_bracket : K1 (mu2 - 1)%nat <= x + T < K1 mu2.
+Proof.
+  destruct mu_bracket_per as [Hmu Hbr]. assert (Hmu1 : (1 <= mu)%nat) by lia.
+  rewrite !(k'_gt K mu x Hmu1) by lia.
+  replace (mu + n + 1 - 1 - 1)%nat with ((mu - 1) + n)%nat by lia. replace (mu + n + 1 - 1)%nat with (mu + n)%nat by lia.
+  rewrite !Himg by lia. lra.
+Qed.
+
+Lemma K1_sorted : sorted K1.
+Proof. destruct mu_bracket_per as [Hmu [Hb1 Hb2]]. apply (k'_sorted K HK mu x ltac:(lia) Hb1 Hb2). Qed.
+Lemma K2_sorted : sorted K2.
+Proof. destruct second_bracket as [Hb1 Hb2]. apply (k'_sorted K1 K1_sorted mu2 (x + T) ltac:(lia) Hb1 Hb2). Qed.
+
+Lemma knewR_K2 idx : (idx <= length k)%nat -> @kn R NumR knewR idx = K2 idx.
+Proof.
+  intros Hi. destruct mu_bracket_per as [Hmu Hbr]. assert (Hmu1 : (1 <= mu)%nat) by lia.
+  assert (Hmu21 : (1 <= mu2)%nat) by lia.
+  destruct knewR_spec as [RL RN]. pose proof knew0_length as L0.
+  rewrite kn_nth by lia. rewrite RN by lia.
+  destruct (Nat.leb_spec (n + 1) idx) as [A|A].
+  - rewrite <- kn_nth by lia. rewrite knew0_K1 by lia.
+    destruct (lt_eq_lt_dec idx mu2) as [[L|L]|L].
+    + rewrite (k'_lt K1 mu2 (x + T) Hmu21) by lia. rewrite (k'_gt K mu x Hmu1 idx) by lia.
+      rewrite (k'_lt K mu x Hmu1) by lia. replace (idx - 1)%nat with ((idx - (n + 1)) + n)%nat by lia.
+      symmetry. apply Himg. lia.
+    + subst idx. rewrite k'_eq. replace (mu + n + 1 - (n + 1))%nat with mu by lia. rewrite k'_eq. reflexivity.
+    + rewrite (k'_gt K1 mu2 (x + T) Hmu21) by lia. rewrite !(k'_gt K mu x Hmu1) by lia.
+      replace (idx - 1 - 1)%nat with ((idx - (n + 1) - 1) + n)%nat by lia.
+      symmetry. apply Himg. lia.
+  - rewrite <- kn_nth by lia. rewrite knew0_K1 by lia.
+    rewrite (k'_lt K1 mu2 (x + T) Hmu21) by lia. reflexivity.
+Qed.
+
+Lemma al2_one i : (i <= n)%nat -> al2 i = 1.
+Proof. intros Hi. destruct mu_bracket_per as [Hmu _]. apply alpha_one; lia. Qed.
+
+Lemma al2_high s : (s <= r)%nat -> al2 (n + 1 + s) = al s.
+Proof.
+  intros Hs. destruct mu_bracket_per as [Hmu Hbr]. assert (Hmu1 : (1 <= mu)%nat) by lia.
+  unfold alpha.
+  destruct (Nat.ltb_spec (n + 1 + s + q) mu2) as [A|A]; destruct (Nat.ltb_spec (s + q) mu) as [A'|A']; try lia; try reflexivity.
+  destruct (Nat.leb_spec mu2 (n + 1 + s)) as [C|C]; destruct (Nat.leb_spec mu s) as [C'|C']; try lia; try reflexivity.
+  rewrite !(k'_gt K mu x Hmu1) by lia.
+  replace (n + 1 + s + q - 1)%nat with ((s + q) + n)%nat by lia. replace (n + 1 + s - 1)%nat with (s + n)%nat by lia.
+  rewrite !Himg by lia.
+  replace (x + T - (K s + T)) with (x - K s) by ring.
+  replace (K (s + q)%nat + T - (K s + T)) with (K (s + q)%nat - K s) by ring. reflexivity.
+Qed.
+
+Lemma coef_high_right j s : (j < n)%nat -> (s <= r)%nat ->
+  @lookup_last R NumR Wr ((n + 1 + s) mod (n + 1)) j
+  = bcoef K1 mu2 (x + T) q (bcoef K mu x q (ej n j)) (n + 1 + s).
+Proof.
+  intros Hj Hs. destruct mu_bracket_per as [Hmu Hbr]. assert (Hmu1 : (1 <= mu)%nat) by lia.
+  rewrite mod_high by lia. rewrite entries_diag by lia.
+  unfold bcoef at 1. rewrite al2_high by exact Hs.
+  unfold bcoef. rewrite (alpha_zero K mu x Hmu1 q (n + 1 + s)) by lia.
+  rewrite (alpha_zero K mu x Hmu1 q (n + 1 + s - 1)) by lia.
+  replace (n + 1 + s - 1)%nat with (n + s)%nat by lia. rewrite ej_high by lia.
+  destruct (Nat.eq_dec s 0) as [->|Nz].
+  - rewrite (alpha_one K mu x Hmu1 q 0) by lia. rewrite (ind_ne 0 (j + 1)) by lia.
+    destruct (Nat.eq_dec 0 j) as [<-|E]; [rewrite ind_eq, (alpha_one K mu x Hmu1 q 0) by lia; ring|rewrite (ind_ne 0 j) by lia; ring].
+  - replace (n + s - 1)%nat with (n + (s - 1))%nat by lia. rewrite ej_high by lia.
+    destruct (Nat.eq_dec s j) as [->|E1].
+    + rewrite ind_eq, (ind_ne j (j + 1)), (ind_ne (j - 1) j) by lia. ring.
+    + rewrite (ind_ne s j) by lia. destruct (Nat.eq_dec s (j + 1)) as [E2|E2].
+      * rewrite <- E2. rewrite ind_eq. replace (s - 1)%nat with j by lia. rewrite ind_eq. ring.
+      * rewrite (ind_ne s (j + 1)), (ind_ne (s - 1) j) by lia. ring.
+Qed.
+
+Lemma right_col side t j : (j < n)%nat -> before_end side t (K (n + per1)%nat) ->
+  sumf (fun i => ej n j i * B side K q i t) 0 (n + per1)
+  = sumf (fun i => @lookup_last R NumR Wr (i mod (n + 1)) j * B side (@kn R NumR knewR) q i t) 0 (n + per1 + 1).
+Proof.
+  intros Hj Ht. destruct mu_bracket_per as [Hmu [Hb1 Hb2]]. assert (Hmu1 : (1 <= mu)%nat) by lia.
+  destruct second_bracket as [Hc1 Hc2]. assert (Hmu21 : (1 <= mu2)%nat) by lia.
+  rewrite (boehm_sum side K HK mu x Hmu1 Hb1 Hb2 q (ej n j) t (n + per1)) by (left; lia).
+  assert (Z : B side K2 q (S (n + per1)) t = 0).
+  { apply (B_support side K2 K2_sorted). 
+    rewrite (k'_lt K1 mu2 (x + T) Hmu21 (S (n + per1))) by lia. rewrite (k'_gt K mu x Hmu1) by lia.
+    replace (S (n + per1) - 1)%nat with (n + per1)%nat by lia.
+    unfold outside, before_end in *. destruct side; left; exact Ht. }
+  rewrite (boehm_sum side K1 K1_sorted mu2 (x + T) Hmu21 Hc1 Hc2 q _ t (S (n + per1)) ltac:(left; lia) (or_intror Z)).
+  rewrite sumf_snoc. cbn [Nat.add]. rewrite Z, Rmult_0_r, Rplus_0_r.
+  replace (S (n + per1)) with (n + per1 + 1)%nat by lia.
+  apply sumf_ext. intros i Hi. f_equal.
+  - destruct (Nat.le_gt_cases i n) as [L|L].
+    + unfold bcoef at 1. rewrite al2_one by exact L. rewrite Rmult_1_l. replace (1 - 1) with 0 by ring. rewrite Rmult_0_l, Rplus_0_r.
+      symmetry. apply coef_low; lia.
+    + replace i with (n + 1 + (i - n - 1))%nat by lia. symmetry. apply coef_high_right; lia.
+  - apply SeamContinuity.B_ext. intros m Hm. symmetry. apply knewR_K2. lia.
+Qed.
+
+Theorem right_row_rel side t : before_end side t (K (n + per1)%nat) ->
+  row_rel (@ref_row R NumR side k p per1 0 t) (@ref_row R NumR side knewR p per1 0 t) Cmat.
+Proof.
+  intros Ht. destruct knewR_spec as [RL _].
+  apply (row_rel_from_cols k knewR p per1 n Wr side t Hlen); [rewrite RL; apply insert_at_length|].
+  intros j Hj. apply right_col; assumption.
+Qed.
+
+Theorem right_canon : per_canon knewR p per1 (n + 1) T.
+Proof.
+  destruct mu_bracket_per as [Hmu Hbr]. assert (Hmu1 : (1 <= mu)%nat) by lia.
+  assert (Hmu21 : (1 <= mu2)%nat) by lia.
+  destruct knewR_spec as [RL RN]. pose proof knew0_length as L0.
+  split.
+  { apply sorted_kn_of_nth. intros i j Hij. rewrite <- !kn_nth by lia. rewrite !knewR_K2 by lia. apply K2_sorted. lia. }
+  split; [exact Hper1|]. split; [exact Hpp|]. split; [lia|]. split; [lia|]. split; [exact HT|]. split.
+  - rewrite !knewR_K2 by lia. rewrite !(k'_lt K1 mu2 (x + T) Hmu21) by lia. rewrite !(k'_lt K mu x Hmu1) by lia. exact Hseam.
+  - intros i Hi. rewrite !kn_nth by lia. rewrite (RN (i + (n + 1))%nat) by lia. rewrite (RN i) by lia.
+    destruct (Nat.leb_spec (n + 1) (i + (n + 1))); [|lia]. destruct (Nat.leb_spec (n + 1) i); [lia|].
+    replace (i + (n + 1) - (n + 1))%nat with i by lia. reflexivity.
+Qed.
+End Right.
+
+(* ---------------- left: mu >= n + 1, the images of x on the left are repaired ---------------- *)
+Lemma B_shift1 side (kf : nat -> R) q0 : forall i t, B side (fun j => kf (S j)) q0 i t = B side kf q0 (S i) t.
+Proof. induction q0 as [|q0 IH]; intros i t; cbn [B]; [reflexivity|]. rewrite !IH. reflexivity. Qed.
+
+Lemma modcn c : (c < n)%nat -> ((c + n) mod (n + 1) = if (c =? 0)%nat then n else c - 1)%nat.
+Proof.
+  intros Hc. destruct (Nat.eqb_spec c 0) as [->|Nz].
+  - cbn [Nat.add]. apply Nat.mod_small. lia.
+  - replace (c + n)%nat with ((c - 1) + 1 * (n + 1))%nat by lia. rewrite Nat.mod_add by lia. apply Nat.mod_small. lia.
+Qed.
+
+Section Left.
+Hypothesis Hleft : (n + 1 <= mu)%nat.
+Local Notation knewL := (@repair_left R NumR knew0 (length knew0) p r).
+Local Notation nu := (mu - n)%nat.
+Local Notation xL := (x - T).
+Local Notation K1 := (k' K nu xL).
+Local Notation mu2 := (mu + 1)%nat.
+Local Notation K2 := (k' K1 mu2 x).
+Local Notation alL := (alpha K nu xL q).
+Local Notation alR := (alpha K1 mu2 x q).
+
+Lemma left_knots :
+  (if (mu <=? p + r)%nat then @repair_right R NumR knew0 (length knew0) p r
+   else if (length knew0 - p - r - 1 <=? mu)%nat then @repair_left R NumR knew0 (length knew0) p r
+   else knew0) = knewL.
+Proof.
+  rewrite knew0_length. destruct (Nat.leb_spec mu (p + r)); [lia|].
+  destruct (Nat.leb_spec (n + per1 + p + 1 - p - r - 1) mu); [reflexivity|lia].
+Qed.
+
+Lemma entries_left r0 c : (r0 <= n)%nat -> (c < n)%nat ->
+  @lookup_last R NumR Wr r0 c =
+    if (mu - p <=? c)%nat then ind r0 c * al c + ind r0 (c + 1) * (1 - al (c + 1))
+    else if (c <? nu)%nat then ind r0 ((c + n) mod (n + 1)) * al (c + n) + ind r0 c * (1 - al (c + n + 1))
+    else ind r0 c.
+Proof.
+  intros Hr Hc. destruct mu_bracket_per as [Hmu Hbr]. assert (Hmu1 : (1 <= mu)%nat) by lia.
+  rewrite (insert_matrix_entries_per k p n mu x ltac:(lia) ltac:(lia) ltac:(lia) ltac:(lia) r0 c Hr Hc).
+  destruct (Nat.leb_spec mu r0); [lia|]. cbn [andb].
+  destruct (Nat.ltb_spec c mu); [|lia]. rewrite andb_true_r.
+  destruct (Nat.leb_spec (mu - p) c) as [B1|B1].
+  - rewrite (a_entry_alpha k p mu x HK ltac:(lia) ltac:(lia) Hbr c) by lia.
+    rewrite (b_entry_alpha k p mu x HK ltac:(lia) ltac:(lia) Hbr c) by lia.
+    destruct (Nat.eqb_spec r0 c) as [->|N1].
+    + rewrite ind_eq, ind_ne by lia. ring.
+    + destruct (Nat.eqb_spec r0 (c + 1)) as [->|N2].
+      * rewrite ind_ne by lia. rewrite ind_eq. ring.
+      * rewrite !ind_ne by lia. unfold z1. destruct (Nat.ltb_spec c (mu - p)); [lia|]. cbn [andb]. ring.
+  - destruct (Nat.leb_spec (mu - p) (c + n)); [|lia]. cbn [andb].
+    destruct (Nat.ltb_spec (c + n) mu) as [B2|B2]; destruct (Nat.ltb_spec c nu) as [B3|B3]; try lia.
+    + rewrite (a_entry_alpha k p mu x HK ltac:(lia) ltac:(lia) Hbr (c + n)) by lia.
+      rewrite (b_entry_alpha k p mu x HK ltac:(lia) ltac:(lia) Hbr (c + n)) by lia.
+      assert (Hne : ((c + n) mod (n + 1) <> c)%nat) by (rewrite modcn by lia; destruct (Nat.eqb_spec c 0); lia).
+      destruct (Nat.eqb_spec r0 ((c + n) mod (n + 1))) as [E1|E1].
+      * rewrite <- E1. rewrite ind_eq, ind_ne by lia. ring.
+      * rewrite (ind_ne r0 ((c + n) mod (n + 1))) by exact E1.
+        destruct (Nat.eqb_spec r0 c) as [->|E2]; [rewrite ind_eq; ring|].
+        rewrite ind_ne by lia. unfold z1. destruct (Nat.eqb_spec r0 c); [lia|]. rewrite andb_false_r. ring.
+    + unfold z1, ind. destruct (Nat.ltb_spec c (mu - p)); [|lia]. reflexivity.
+Qed.
+
+(* the three regimes of the rows of the matrix *)
+Lemma lookup_La rho j : (rho + 1 < nu)%nat -> (j < n)%nat ->
+  @lookup_last R NumR Wr rho j = al (rho + 1 + n) * ind (rho + 1) j + (1 - al (rho + 1 + n)) * ind rho j.
+Proof.
+  intros Hr Hj. destruct mu_bracket_per as [Hmu Hbr].
+  rewrite entries_left by lia.
+  destruct (Nat.eq_dec j rho) as [->|N1]; [|destruct (Nat.eq_dec j (rho + 1)) as [->|N2]].
+  - destruct (Nat.leb_spec (mu - p) rho); [lia|]. destruct (Nat.ltb_spec rho nu); [|lia].
+    rewrite (ind_ne rho ((rho + n) mod (n + 1))) by (rewrite modcn by lia; destruct (Nat.eqb_spec rho 0); lia).
+    rewrite ind_eq, (ind_ne (rho + 1) rho) by lia. replace (rho + n + 1)%nat with (rho + 1 + n)%nat by lia. ring.
+  - destruct (Nat.leb_spec (mu - p) (rho + 1)); [lia|]. destruct (Nat.ltb_spec (rho + 1) nu); [|lia].
+    rewrite modcn by lia. destruct (Nat.eqb_spec (rho + 1) 0); [lia|]. replace (rho + 1 - 1)%nat with rho by lia.
+    rewrite !ind_eq, (ind_ne rho (rho + 1)) by lia. ring.
+  - rewrite (ind_ne (rho + 1) j), (ind_ne rho j) by lia.
+    destruct (Nat.leb_spec (mu - p) j).
+    + rewrite (ind_ne rho (j + 1)) by lia. ring.
+    + destruct (Nat.ltb_spec j nu); [|ring].
+      rewrite (ind_ne rho ((j + n) mod (n + 1))) by (rewrite modcn by lia; destruct (Nat.eqb_spec j 0); lia). ring.
+Qed.
+
+Lemma lookup_Lb rho j : (nu <= rho + 1)%nat -> (rho <= mu - p)%nat -> (j < n)%nat ->
+  @lookup_last R NumR Wr rho j = ind rho j.
+Proof.
+  intros Hr1 Hr2 Hj. destruct mu_bracket_per as [Hmu Hbr]. assert (Hmu1 : (1 <= mu)%nat) by lia.
+  rewrite entries_left by lia.
+  destruct (Nat.leb_spec (mu - p) j) as [A|A].
+  - destruct (Nat.eq_dec rho j) as [->|N1].
+    + rewrite ind_eq, ind_ne by lia. rewrite (alpha_one K mu x Hmu1 q j) by lia. ring.
+    + rewrite (ind_ne rho j), (ind_ne rho (j + 1)) by lia. ring.
+  - destruct (Nat.ltb_spec j nu) as [B|B]; [|reflexivity].
+    rewrite (ind_ne rho ((j + n) mod (n + 1))) by (rewrite modcn by lia; destruct (Nat.eqb_spec j 0); lia).
+    destruct (Nat.eq_dec rho j) as [->|N1].
+    + rewrite ind_eq. rewrite (alpha_zero K mu x Hmu1 q (j + n + 1)) by lia. ring.
+    + rewrite (ind_ne rho j) by lia. ring.
+Qed.
+
+Lemma lookup_Lc rho j : (mu - p + 1 <= rho <= n)%nat -> (j < n)%nat ->
+  @lookup_last R NumR Wr rho j = al rho * ej n j rho + (1 - al rho) * ind (rho - 1) j.
+Proof.
+  intros Hr Hj. destruct mu_bracket_per as [Hmu Hbr]. assert (Hmu1 : (1 <= mu)%nat) by lia.
+  rewrite entries_left by lia. unfold ej.
+  destruct (Nat.eq_dec rho n) as [->|Nn].
+  - rewrite Nat.mod_same by lia.
+    destruct (Nat.leb_spec (mu - p) j) as [A|A].
+    + rewrite (ind_ne n j), (ind_ne 0 j) by lia.
+      destruct (Nat.eq_dec n (j + 1)) as [E|E].
+      * rewrite <- E. rewrite ind_eq. replace (n - 1)%nat with j by lia. rewrite ind_eq. ring.
+      * rewrite (ind_ne n (j + 1)), (ind_ne (n - 1) j) by lia. ring.
+    + rewrite (ind_ne (n - 1) j) by lia. rewrite (ind_ne n j) by lia.
+      destruct (Nat.ltb_spec j nu) as [B|B].
+      * rewrite modcn by lia. destruct (Nat.eqb_spec j 0) as [->|Nz].
+        -- rewrite !ind_eq. cbn [Nat.add]. ring.
+        -- rewrite (ind_ne n (j - 1)), (ind_ne 0 j) by lia. ring.
+      * rewrite (ind_ne 0 j) by lia. ring.
+  - rewrite (Nat.mod_small rho n) by lia.
+    destruct (Nat.leb_spec (mu - p) j) as [A|A].
+    + destruct (Nat.eq_dec rho j) as [->|N1].
+      * rewrite ind_eq, (ind_ne j (j + 1)), (ind_ne (j - 1) j) by lia. ring.
+      * rewrite (ind_ne rho j) by lia. destruct (Nat.eq_dec rho (j + 1)) as [->|N2].
+        -- rewrite ind_eq. replace (j + 1 - 1)%nat with j by lia. rewrite ind_eq. ring.
+        -- rewrite (ind_ne rho (j + 1)), (ind_ne (rho - 1) j) by lia. ring.
+    + rewrite (ind_ne rho j), (ind_ne (rho - 1) j) by lia.
+      destruct (Nat.ltb_spec j nu) as [B|B]; [|ring].
+      rewrite (ind_ne rho ((j + n) mod (n + 1))) by (rewrite modcn by lia; destruct (Nat.eqb_spec j 0); lia). ring.
+Qed.
+
+(* the two insertions: x - T at nu into K, then x at mu + 1 *)
+Lemma left_bracket1 : K (nu - 1)%nat <= xL < K nu.
+Proof.
+  destruct mu_bracket_per as [Hmu Hbr].
+  pose proof (Himg (nu - 1)%nat ltac:(lia)) as E1. replace (nu - 1 + n)%nat with (mu - 1)%nat in E1 by lia.
+  pose proof (Himg nu ltac:(lia)) as E2. replace (nu + n)%nat with mu in E2 by lia. lra.
+Qed.
+Lemma left_bracket2 : K1 (mu2 - 1)%nat <= x < K1 mu2.
+Proof.
+  destruct mu_bracket_per as [Hmu Hbr]. assert (Hnu1 : (1 <= nu)%nat) by lia.
+  rewrite !(k'_gt K nu xL Hnu1) by lia.
+  replace (mu + 1 - 1 - 1)%nat with (mu - 1)%nat by lia. replace (mu + 1 - 1)%nat with mu by lia. exact Hbr.
+Qed.
+Lemma K1L_sorted : sorted K1.
+Proof. destruct left_bracket1 as [Hb1 Hb2]. apply (k'_sorted K HK nu xL ltac:(lia) Hb1 Hb2). Qed.
+Lemma K2L_sorted : sorted K2.
+Proof. destruct left_bracket2 as [Hb1 Hb2]. apply (k'_sorted K1 K1L_sorted mu2 x ltac:(lia) Hb1 Hb2). Qed.
+
+Lemma knewL_spec : length knewL = length knew0 /\
+  forall idx, (idx < length knew0)%nat ->
+    nth idx knewL 0 = if (idx <? p + r + 1)%nat then nth (n + 1 + idx) knew0 0 - T else nth idx knew0 0.
+Proof.
+  destruct mu_bracket_per as [Hmu Hbr]. assert (Hmu1 : (1 <= mu)%nat) by lia.
+  pose proof knew0_length as L0.
+  set (k0 := @kn R NumR knew0 (p + r)). set (k1 := @kn R NumR knew0 (length knew0 - 1)).
+  destruct (fold_upd_spec (fun v => k0 - (k1 - v)) 0 (length knew0 - p - r - 1) (p + r + 1) 0 knew0) as [FL FN];
+    [lia|lia|intros; lia|]. cbv zeta in FL, FN.
+  change (fold_left _ (seq 0 (p + r + 1)) knew0) with knewL in FL, FN.
+  split; [exact FL|]. intros idx Hi. rewrite (FN idx Hi).
+  assert (E0 : k0 = K (p + r)%nat) by (unfold k0; rewrite knew0_K1 by lia; apply k'_lt; lia).
+  assert (E1 : k1 = K (p + r)%nat + T).
+  { unfold k1. rewrite L0. rewrite knew0_K1 by lia. rewrite (k'_gt K mu x Hmu1) by lia.
+    replace (n + per1 + p + 1 - 1 - 1)%nat with ((p + r) + n)%nat by lia. apply Himg. lia. }
+  rewrite L0. replace (n + per1 + p + 1 - p - r - 1)%nat with (n + 1)%nat by lia.
+  cbn [Nat.add]. destruct (Nat.ltb_spec idx (p + r + 1)) as [A|A]; cbn [andb].
+  - destruct (Nat.leb_spec 0 idx); [|lia]. cbn [andb]. replace (idx - 0)%nat with idx by lia. rewrite E0, E1. ring.
+  - rewrite andb_false_r. reflexivity.
+Qed.
+
+Lemma knewL_K2 idx : (idx <= length k)%nat -> @kn R NumR knewL idx = K2 (S idx).
+Proof.
+  intros Hi. destruct mu_bracket_per as [Hmu Hbr]. assert (Hmu1 : (1 <= mu)%nat) by lia.
+  assert (Hnu1 : (1 <= nu)%nat) by lia. assert (Hmu21 : (1 <= mu2)%nat) by lia.
+  destruct knewL_spec as [RL RN]. pose proof knew0_length as L0.
+  rewrite kn_nth by lia. rewrite RN by lia.
+  destruct (Nat.ltb_spec idx (p + r + 1)) as [A|A].
+  - rewrite <- kn_nth by lia. rewrite knew0_K1 by lia.
+    rewrite (k'_lt K1 mu2 x Hmu21) by lia.
+    destruct (lt_eq_lt_dec (n + 1 + idx) mu) as [[L|L]|L].
+    + rewrite (k'_lt K mu x Hmu1) by lia. rewrite (k'_lt K nu xL Hnu1) by lia.
+      replace (n + 1 + idx)%nat with (S idx + n)%nat by lia. rewrite Himg by lia. ring.
+    + rewrite L. rewrite k'_eq. replace (S idx) with nu by lia. rewrite k'_eq. reflexivity.
+    + rewrite (k'_gt K mu x Hmu1) by lia. rewrite (k'_gt K nu xL Hnu1) by lia.
+      replace (n + 1 + idx - 1)%nat with (idx + n)%nat by lia. replace (S idx - 1)%nat with idx by lia.
+      rewrite Himg by lia. ring.
+  - rewrite <- kn_nth by lia. rewrite knew0_K1 by lia.
+    destruct (lt_eq_lt_dec idx mu) as [[L|L]|L].
+    + rewrite (k'_lt K mu x Hmu1) by lia. rewrite (k'_lt K1 mu2 x Hmu21) by lia. rewrite (k'_gt K nu xL Hnu1) by lia.
+      f_equal. lia.
+    + subst idx. rewrite k'_eq. replace (S mu) with mu2 by lia. rewrite k'_eq. reflexivity.
+    + rewrite (k'_gt K mu x Hmu1) by lia. rewrite (k'_gt K1 mu2 x Hmu21) by lia. rewrite (k'_gt K nu xL Hnu1) by lia.
+      f_equal. lia.
+Qed.
+
+(* the ratios of the two steps in terms of the ratios al of the single insertion of x at mu *)
+Lemma alL_low m : (m < nu)%nat -> alL m = al (m + n).
+Proof.
+  intros Hm. destruct mu_bracket_per as [Hmu Hbr]. assert (Hmu1 : (1 <= mu)%nat) by lia. assert (Hnu1 : (1 <= nu)%nat) by lia.
+  rewrite (alpha_mid K nu xL Hnu1 q m) by lia. rewrite (alpha_mid K mu x Hmu1 q (m + n)) by lia.
+  replace (m + n + q)%nat with ((m + q) + n)%nat by lia. rewrite !Himg by lia.
+  replace (x - (K m + T)) with (xL - K m) by ring.
+  replace (K (m + q)%nat + T - (K m + T)) with (K (m + q)%nat - K m) by ring. reflexivity.
+Qed.
+Lemma alL_high m : (nu <= m)%nat -> alL m = 0.
+Proof. intros Hm. destruct mu_bracket_per as [Hmu _]. apply alpha_zero; lia. Qed.
+Lemma alR_shift m : (nu + 1 <= m)%nat -> alR m = al (m - 1).
+Proof.
+  intros Hm. destruct mu_bracket_per as [Hmu Hbr]. assert (Hnu1 : (1 <= nu)%nat) by lia.
+  unfold alpha.
+  destruct (Nat.ltb_spec (m + q) mu2) as [A|A]; destruct (Nat.ltb_spec (m - 1 + q) mu) as [A'|A']; try lia; try reflexivity.
+  destruct (Nat.leb_spec mu2 m) as [C|C]; destruct (Nat.leb_spec mu (m - 1)) as [C'|C']; try lia; try reflexivity.
+  rewrite !(k'_gt K nu xL Hnu1) by lia. replace (m + q - 1)%nat with (m - 1 + q)%nat by lia. reflexivity.
+Qed.
+
+Lemma c1_high j m : (nu <= m)%nat -> bcoef K nu xL q (ej n j) m = ej n j (m - 1).
+Proof. intros Hm. unfold bcoef. rewrite alL_high by exact Hm. ring. Qed.
+
+Lemma c2_a j i : (i + 1 < nu)%nat -> (j < n)%nat ->
+  bcoef K1 mu2 x q (bcoef K nu xL q (ej n j)) (S i) = al (i + 1 + n) * ind (i + 1) j + (1 - al (i + 1 + n)) * ind i j.
+Proof.
+  intros Hi Hj. destruct mu_bracket_per as [Hmu Hbr].
+  unfold bcoef at 1. rewrite (alpha_one K1 mu2 x ltac:(lia) q (S i)) by lia.
+  unfold bcoef. rewrite alL_low by lia. replace (S i + n)%nat with (i + 1 + n)%nat by lia.
+  unfold ej. replace (S i - 1)%nat with i by lia. rewrite !Nat.mod_small by lia. replace (S i) with (i + 1)%nat by lia. ring.
+Qed.
+Lemma c2_b j i : (nu <= i + 1)%nat -> (i <= mu - p)%nat ->
+  bcoef K1 mu2 x q (bcoef K nu xL q (ej n j)) (S i) = ej n j i.
+Proof.
+  intros Hi1 Hi2. destruct mu_bracket_per as [Hmu Hbr].
+  unfold bcoef at 1. rewrite (alpha_one K1 mu2 x ltac:(lia) q (S i)) by lia.
+  rewrite c1_high by lia. replace (S i - 1)%nat with i by lia. ring.
+Qed.
+Lemma c2_c j i : (mu - p + 1 <= i)%nat ->
+  bcoef K1 mu2 x q (bcoef K nu xL q (ej n j)) (S i) = al i * ej n j i + (1 - al i) * ej n j (i - 1).
+Proof.
+  intros Hi. destruct mu_bracket_per as [Hmu Hbr].
+  unfold bcoef at 1. rewrite alR_shift by lia. rewrite !c1_high by lia.
+  replace (S i - 1)%nat with i by lia. reflexivity.
+Qed.
+
+Lemma coef_left j i : (j < n)%nat -> (i <= n + per1)%nat ->
+  @lookup_last R NumR Wr (i mod (n + 1)) j = bcoef K1 mu2 x q (bcoef K nu xL q (ej n j)) (S i).
+Proof.
+  intros Hj Hi. destruct mu_bracket_per as [Hmu Hbr]. assert (Hmu1 : (1 <= mu)%nat) by lia.
+  destruct (Nat.le_gt_cases i n) as [L|L].
+  - rewrite Nat.mod_small by lia.
+    destruct (Nat.lt_ge_cases (i + 1) nu) as [A|A].
+    + rewrite c2_a by lia. apply lookup_La; lia.
+    + destruct (Nat.le_gt_cases i (mu - p)) as [B|B].
+      * rewrite c2_b by lia. rewrite lookup_Lb by lia. unfold ej. rewrite Nat.mod_small by lia. reflexivity.
+      * rewrite c2_c by lia. rewrite lookup_Lc by lia. f_equal. f_equal. unfold ej. rewrite Nat.mod_small by lia. reflexivity.
+  - set (s := (i - n - 1)%nat). replace i with (n + 1 + s)%nat by lia. assert (Hs : (s <= r)%nat) by lia.
+    rewrite mod_high by lia. rewrite c2_c by lia.
+    replace (n + 1 + s - 1)%nat with (n + s)%nat by lia. rewrite ej_high by lia.
+    replace (n + 1 + s)%nat with (n + (s + 1))%nat at 2 by lia. rewrite ej_high by lia.
+    destruct (Nat.lt_ge_cases (s + 1) nu) as [A|A].
+    + rewrite lookup_La by lia. replace (s + 1 + n)%nat with (n + 1 + s)%nat by lia. reflexivity.
+    + rewrite lookup_Lb by lia. rewrite (alpha_zero K mu x Hmu1 q (n + 1 + s)) by lia. ring.
+Qed.
+
+Lemma left_col side t j : (j < n)%nat -> after_start side (K q) t ->
+  sumf (fun i => ej n j i * B side K q i t) 0 (n + per1)
+  = sumf (fun i => @lookup_last R NumR Wr (i mod (n + 1)) j * B side (@kn R NumR knewL) q i t) 0 (n + per1 + 1).
+Proof.
+  intros Hj Ht. destruct mu_bracket_per as [Hmu Hbr]. assert (Hmu1 : (1 <= mu)%nat) by lia.
+  destruct left_bracket1 as [Hb1 Hb2]. destruct left_bracket2 as [Hc1 Hc2].
+  assert (Hnu1 : (1 <= nu)%nat) by lia. assert (Hmu21 : (1 <= mu2)%nat) by lia.
+  assert (Z1 : B side K1 q 0 t = 0).
+  { apply (B_support side K1 K1L_sorted). cbn [Nat.add]. rewrite (k'_gt K nu xL Hnu1 (q + 1)) by lia.
+    replace (q + 1 - 1)%nat with q by lia.
+    unfold outside, after_start in *. destruct side; right; exact Ht. }
+  assert (Z2 : B side K2 q 0 t = 0).
+  { apply (B_support side K2 K2L_sorted). cbn [Nat.add]. rewrite (k'_lt K1 mu2 x Hmu21 (q + 1)) by lia.
+    rewrite (k'_gt K nu xL Hnu1 (q + 1)) by lia. replace (q + 1 - 1)%nat with q by lia.
+    unfold outside, after_start in *. destruct side; right; exact Ht. }
+  rewrite (boehm_sum side K HK nu xL Hnu1 Hb1 Hb2 q (ej n j) t (n + per1) (or_intror Z1) ltac:(left; lia)).
+  rewrite (boehm_sum side K1 K1L_sorted mu2 x Hmu21 Hc1 Hc2 q _ t (S (n + per1)) ltac:(left; lia) ltac:(left; lia)).
+  rewrite sumf_S. rewrite Z2, Rmult_0_r, Rplus_0_l. rewrite <- sumf_shift.
+  replace (S (n + per1)) with (n + per1 + 1)%nat by lia.
+  apply sumf_ext. intros i Hi. f_equal.
+  - symmetry. apply coef_left; lia.
+  - rewrite <- B_shift1. apply SeamContinuity.B_ext. intros m Hm. symmetry. apply knewL_K2. lia.
+Qed.
+
+Theorem left_row_rel side t : after_start side (K q) t ->
+  row_rel (@ref_row R NumR side k p per1 0 t) (@ref_row R NumR side knewL p per1 0 t) Cmat.
+Proof.
+  intros Ht. destruct knewL_spec as [RL _].
+  apply (row_rel_from_cols k knewL p per1 n Wr side t Hlen); [rewrite RL; apply insert_at_length|].
+  intros j Hj. apply left_col; assumption.
+Qed.
+
+Theorem left_canon : per_canon knewL p per1 (n + 1) T.
+Proof.
+  destruct mu_bracket_per as [Hmu Hbr]. assert (Hmu1 : (1 <= mu)%nat) by lia.
+  assert (Hnu1 : (1 <= nu)%nat) by lia. assert (Hmu21 : (1 <= mu2)%nat) by lia.
+  destruct knewL_spec as [RL RN]. pose proof knew0_length as L0.
+  split.
+  { apply sorted_kn_of_nth. intros i j Hij. rewrite <- !kn_nth by lia. rewrite !knewL_K2 by lia. apply K2L_sorted. lia. }
+  split; [exact Hper1|]. split; [exact Hpp|]. split; [lia|]. split; [lia|]. split; [exact HT|]. split.
+  - rewrite !knewL_K2 by lia. rewrite !(k'_lt K1 mu2 x Hmu21) by lia. rewrite !(k'_gt K nu xL Hnu1) by lia.
+    replace (S per1 - 1)%nat with per1 by lia. replace (S (p - 1) - 1)%nat with (p - 1)%nat by lia. exact Hseam.
+  - intros i Hi. rewrite !kn_nth by lia. rewrite (RN (i + (n + 1))%nat) by lia. rewrite (RN i) by lia.
+    destruct (Nat.ltb_spec (i + (n + 1)) (p + r + 1)); [lia|]. destruct (Nat.ltb_spec i (p + r + 1)); [|lia].
+    replace (n + 1 + i)%nat with (i + (n + 1))%nat by lia. ring.
+Qed.
+End Left.
+
+(* ---------------- the three cases together ---------------- *)
+Definition knew_model : list R :=
+  if (mu <=? p + r)%nat then @repair_right R NumR knew0 (length knew0) p r
+  else if (length knew0 - p - r - 1 <=? mu)%nat then @repair_left R NumR knew0 (length knew0) p r
+  else knew0.
+
+Lemma window_knots i : (per1 <= i <= per1 + n)%nat -> @kn R NumR knew_model i = k' K mu x i.
+Proof.
+  intros Hi. destruct mu_bracket_per as [Hmu Hbr]. assert (Hmu1 : (1 <= mu)%nat) by lia.
+  unfold knew_model.
+  destruct (le_lt_dec mu (p + r)) as [HR|HR]; [|destruct (le_lt_dec (n + 1) mu) as [HL|HL]].
+  - rewrite (right_knots HR). rewrite (knewR_K2 HR) by lia. apply k'_lt; lia.
+  - rewrite (left_knots HL). rewrite (knewL_K2 HL) by lia.
+    assert (Hnu1 : (1 <= mu - n)%nat) by lia.
+    destruct (lt_eq_lt_dec i mu) as [[L|L]|L].
+    + rewrite (k'_lt _ (mu + 1) x ltac:(lia)) by lia. rewrite (k'_gt K (mu - n) (x - T) Hnu1) by lia.
+      rewrite (k'_lt K mu x Hmu1) by lia. f_equal. lia.
+    + subst i. replace (S mu) with (mu + 1)%nat by lia. rewrite !k'_eq. reflexivity.
+    + rewrite (k'_gt _ (mu + 1) x ltac:(lia)) by lia. rewrite (k'_gt K (mu - n) (x - T) Hnu1) by lia.
+      rewrite (k'_gt K mu x Hmu1) by lia. f_equal. lia.
+  - rewrite (interior_knots ltac:(lia)). apply knew0_K1. lia.
+Qed.
+
+Theorem canon_insert_canon : per_canon knew_model p per1 (n + 1) T.
+Proof.
+  unfold knew_model.
+  destruct (le_lt_dec mu (p + r)) as [HR|HR]; [|destruct (le_lt_dec (n + 1) mu) as [HL|HL]].
+  - rewrite (right_knots HR). apply right_canon; exact HR.
+  - rewrite (left_knots HL). apply left_canon; exact HL.
+  - rewrite (interior_knots ltac:(lia)). apply interior_canon. lia.
+Qed.
+
+Theorem canon_insert_row_rel side t : after_start side (K q) t -> before_end side t (K (n + per1)%nat) ->
+  row_rel (@ref_row R NumR side k p per1 0 t) (@ref_row R NumR side knew_model p per1 0 t) Cmat.
+Proof.
+  intros Hs He. unfold knew_model.
+  destruct (le_lt_dec mu (p + r)) as [HR|HR]; [|destruct (le_lt_dec (n + 1) mu) as [HL|HL]].
+  - rewrite (right_knots HR). apply right_row_rel; assumption.
+  - rewrite (left_knots HL). apply left_row_rel; assumption.
+  - rewrite (interior_knots ltac:(lia)). apply interior_row_rel. lia.
+Qed.
+
+(* one period of the new knot list = one period of the old one plus exactly x *)
+Theorem canon_insert_period_knots :
+  firstn (n + 1) (skipn per1 knew_model) = insert_at (firstn n (skipn per1 k)) (mu - per1) x.
+Proof.
+  destruct mu_bracket_per as [Hmu Hbr]. assert (Hmu1 : (1 <= mu)%nat) by lia.
+  destruct canon_insert_canon as (_ & _ & _ & Ln & _).
+  assert (Lo : length (firstn n (skipn per1 k)) = n) by (rewrite firstn_length, skipn_length; lia).
+  apply (nth_ext _ _ 0 0).
+  - rewrite insert_at_length, Lo, firstn_length, skipn_length. lia.
+  - intros i Hi. rewrite firstn_length, skipn_length in Hi.
+    rewrite InsertMatrix.nth_firstn_lt by lia. rewrite InsertMatrix.nth_skipn_add.
+    rewrite <- kn_nth by lia. rewrite window_knots by lia.
+    rewrite <- (kn_nth (insert_at _ _ _)) by (rewrite insert_at_length; lia).
+    rewrite kn_insert_at_gen by lia. unfold k'.
+    destruct (Nat.ltb_spec (per1 + i) mu); destruct (Nat.ltb_spec i (mu - per1)); try lia.
+    + rewrite (kn_nth (firstn _ _)) by lia. rewrite InsertMatrix.nth_firstn_lt by lia. rewrite InsertMatrix.nth_skipn_add.
+      apply kn_nth. lia.
+    + destruct (Nat.eqb_spec (per1 + i) mu); destruct (Nat.eqb_spec i (mu - per1)); try lia; [reflexivity|].
+      rewrite (kn_nth (firstn _ _)) by lia. rewrite InsertMatrix.nth_firstn_lt by lia. rewrite InsertMatrix.nth_skipn_add.
+      rewrite kn_nth by lia. f_equal. lia.
+Qed.
+
+Lemma canon_insert_start : @b_start R NumR (mkBasis p knew_model per1) = K (p - 1)%nat.
+Proof.
+  destruct mu_bracket_per as [Hmu _]. unfold b_start. cbn [b_knots b_order].
+  rewrite window_knots by lia. apply k'_lt; lia.
+Qed.
+Lemma canon_insert_end : @b_end R NumR (mkBasis p knew_model per1) = K (n + per1)%nat.
+Proof.
+  destruct mu_bracket_per as [Hmu _].
+  destruct canon_insert_canon as (_ & _ & _ & Ln & _ & _ & _ & Im).
+  unfold b_end. cbn [b_knots b_order]. rewrite Ln.
+  replace (n + 1 + per1 + p - p)%nat with (per1 + (n + 1))%nat by lia. rewrite Im by lia.
+  rewrite window_knots by lia. rewrite k'_lt by lia. replace (n + per1)%nat with (per1 + n)%nat by lia.
+  symmetry. apply Himg. lia.
+Qed.
+End Canon.
+
+(* ------------------------------------------------------------------------------------------------ *)
+(* Part 4: the statements on the model's functions                                                  *)
+(* ------------------------------------------------------------------------------------------------ *)
+(* C04 (periodic half): on a regular canonical periodic basis, for every x of the domain, insert_knot succeeds, returns
+   a canonical periodic basis with one more function, the same period and domain, whose knots over one period are the
+   old ones plus exactly x (the ghost knots being the exact images again), and the matrix C relates the dense periodic
+   rows before and after at every parameter of the domain, both one-sided variants:  N_old(t) = N_new(t) x C. *)
+Theorem basis_insert_knot_periodic (k : list R) (p per1 n : nat) (T x : R) :
+  per_canon k p per1 n T ->
+  @b_start R NumR (mkBasis p k per1) <= x < @b_end R NumR (mkBasis p k per1) ->
+  let mu := @py_bisect_right R NumR k x in
+  let C := @mat_of_writes R NumR (n + 1) n (@insert_writes R NumR k p n mu x) in
+  exists knew,
+    @basis_insert_knot R NumR (mkBasis p k per1) x = Ok (mkBasis p knew per1, C) /\
+    per_canon knew p per1 (n + 1) T /\
+    @b_start R NumR (mkBasis p knew per1) = @b_start R NumR (mkBasis p k per1) /\
+    @b_end R NumR (mkBasis p knew per1) = @b_end R NumR (mkBasis p k per1) /\
+    firstn (n + 1) (skipn per1 knew) = insert_at (firstn n (skipn per1 k)) (mu - per1) x /\
+    forall side t, after_start side (@b_start R NumR (mkBasis p k per1)) t ->
+                   before_end side t (@b_end R NumR (mkBasis p k per1)) ->
+      row_rel (@ref_row R NumR side k p per1 0 t) (@ref_row R NumR side knew p per1 0 t) C.
+Proof.
+  intros Hcan Hx. cbv zeta.
+  rewrite (canon_end k p per1 n T Hcan) in *. rewrite (canon_start k p per1) in *.
+  exists (knew_model k p per1 x). split; [apply (insert_knot_unfold k p per1 n T Hcan x Hx)|].
+  split; [apply (canon_insert_canon k p per1 n T Hcan x Hx)|].
+  split; [apply (canon_insert_start k p per1 n T Hcan x Hx)|].
+  split; [apply (canon_insert_end k p per1 n T Hcan x Hx)|].
+  split; [apply (canon_insert_period_knots k p per1 n T Hcan x Hx)|].
+  intros side t Hs He. apply (canon_insert_row_rel k p per1 n T Hcan x Hx side t Hs He).
+Qed.
+
+(* the interior case in closed form: x at least per1 = continuity + 1 knots away from both ends of the domain; the new
+   knot list is the old one with x inserted, and the row relation holds at EVERY t (no domain restriction) *)
+Theorem basis_insert_knot_periodic_interior (k : list R) (p per1 n : nat) (T x : R) :
+  per_canon k p per1 n T ->
+  @kn R NumR k (p + per1 - 1) <= x < @kn R NumR k n ->
+  let mu := @py_bisect_right R NumR k x in
+  let C := @mat_of_writes R NumR (n + 1) n (@insert_writes R NumR k p n mu x) in
+  @basis_insert_knot R NumR (mkBasis p k per1) x = Ok (mkBasis p (insert_at k mu x) per1, C) /\
+  per_canon (insert_at k mu x) p per1 (n + 1) T /\
+  forall side t, row_rel (@ref_row R NumR side k p per1 0 t) (@ref_row R NumR side (insert_at k mu x) p per1 0 t) C.
+Proof.
+  intros Hcan Hx. cbv zeta.
+  pose proof Hcan as (HK & Hper1 & Hpp & Hlen & Hreg & HT & Hseam & Himg).
+  assert (Hx' : @kn R NumR k (p - 1) <= x < @kn R NumR k (n + per1)).
+  { pose proof (HK (p - 1)%nat (p + per1 - 1)%nat ltac:(lia)). pose proof (HK n (n + per1)%nat ltac:(lia)). lra. }
+  destruct (mu_bracket_per k p per1 n T Hcan x Hx') as [Hmu Hbr].
+  assert (Hint : (p + per1 <= @py_bisect_right R NumR k x <= n)%nat).
+  { split.
+    - destruct (Nat.le_gt_cases (p + per1) (@py_bisect_right R NumR k x)) as [L|L]; [exact L|exfalso].
+      pose proof (HK (@py_bisect_right R NumR k x) (p + per1 - 1)%nat ltac:(lia)). lra.
+    - destruct (Nat.le_gt_cases (@py_bisect_right R NumR k x) n) as [L|L]; [exact L|exfalso].
+      pose proof (HK n (@py_bisect_right R NumR k x - 1)%nat ltac:(lia)). lra. }
+  split.
+  - rewrite (insert_knot_unfold k p per1 n T Hcan x Hx'). rewrite (interior_knots k p per1 n T Hcan x Hint). reflexivity.
+  - split; [apply (interior_canon k p per1 n T Hcan x Hx' Hint)|].
+    intros side t. apply (interior_row_rel k p per1 n T Hcan x Hx' Hint).
+Qed.
+
+(* the lifting to objects: any pardim, any direction d, the other directions arbitrary rows *)
+Lemma preserves_map_of_row_rel dim c (rows : list (list R)) d cps (N' : list R) (C : list (list R)) :
+  (d < length rows)%nat -> (c < dim)%nat -> net_ok dim rows cps -> (0 < prodl (map (@length R) rows))%nat ->
+  row_rel (nth d rows []) N' C ->
+  coord c (@teval R NumR dim (@upd (list R) rows d N') (@apply_dir R NumR dim (map (@length R) rows) d C cps))
+  = coord c (@teval R NumR dim rows cps).
+Proof.
+  intros Hd Hc Hnet Hpos RR.
+  rewrite (teval_tsum dim c rows Hc cps Hnet).
+  rewrite <- (tsum_apply_dir dim c C rows d N' cps Hd Hc Hnet Hpos RR).
+  apply teval_tsum; [exact Hc|].
+  destruct Hnet as [Hv Hl]. split; [apply Forall_apply_dir; exact Hv|].
+  rewrite length_apply_dir; [| rewrite map_length; exact Hd | exact Hl | exact Hpos ].
+  f_equal. destruct RR as (HC1 & _). rewrite HC1.
+  clear. revert d. induction rows as [|a rows IHr]; intros d; [reflexivity|]. destruct d; cbn [upd map]; [reflexivity|]. f_equal. apply IHr.
+Qed.
+
+Theorem insert_knot_periodic_interior_preserves_map (k : list R) (p per1 n : nat) (T x : R) :
+  per_canon k p per1 n T ->
+  @kn R NumR k (p + per1 - 1) <= x < @kn R NumR k n ->
+  let mu := @py_bisect_right R NumR k x in
+  forall dim c side t (rows : list (list R)) d cps,
+  (d < length rows)%nat -> (c < dim)%nat -> nth d rows [] = @ref_row R NumR side k p per1 0 t ->
+  net_ok dim rows cps -> (0 < prodl (map (@length R) rows))%nat ->
+  coord c (@teval R NumR dim (@upd (list R) rows d (@ref_row R NumR side (insert_at k mu x) p per1 0 t))
+             (@apply_dir R NumR dim (map (@length R) rows) d
+                (@mat_of_writes R NumR (n + 1) n (@insert_writes R NumR k p n mu x)) cps))
+  = coord c (@teval R NumR dim rows cps).
+Proof.
+  intros Hcan Hx mu dim c side t rows d cps Hd Hc Hrow Hnet Hpos.
+  destruct (basis_insert_knot_periodic_interior k p per1 n T x Hcan Hx) as (_ & _ & RR).
+  apply preserves_map_of_row_rel; try assumption. rewrite Hrow. apply RR.
+Qed.
+
+(* every x of the domain (interior or within the first / last per1 spans: the two ghost-repair branches), stated on the
+   output of the model's basis_insert_knot; t in the domain with the one-sided conventions of evaluate *)
+Theorem insert_knot_periodic_preserves_map (k : list R) (p per1 n : nat) (T x : R) b' C :
+  per_canon k p per1 n T ->
+  @b_start R NumR (mkBasis p k per1) <= x < @b_end R NumR (mkBasis p k per1) ->
+  @basis_insert_knot R NumR (mkBasis p k per1) x = Ok (b', C) ->
+  forall dim c side t (rows : list (list R)) d cps,
+  after_start side (@b_start R NumR (mkBasis p k per1)) t -> before_end side t (@b_end R NumR (mkBasis p k per1)) ->
+  (d < length rows)%nat -> (c < dim)%nat -> nth d rows [] = @ref_row R NumR side k p per1 0 t ->
+  net_ok dim rows cps -> (0 < prodl (map (@length R) rows))%nat ->
+  coord c (@teval R NumR dim (@upd (list R) rows d (@ref_row R NumR side (b_knots b') (b_order b') (b_per1 b') 0 t))
+             (@apply_dir R NumR dim (map (@length R) rows) d C cps))
+  = coord c (@teval R NumR dim rows cps).
+Proof.
+  intros Hcan Hx Hins dim c side t rows d cps Hs He Hd Hc Hrow Hnet Hpos.
+  destruct (basis_insert_knot_periodic k p per1 n T x Hcan Hx) as (knew & E & _ & _ & _ & _ & RR). cbv zeta in E, RR.
+  rewrite E in Hins. injection Hins as <- <-. cbn [b_knots b_order b_per1].
+  apply preserves_map_of_row_rel; try assumption. rewrite Hrow. apply RR; assumption.
+Qed.
+
+(* the (parameter, side) pairs produced by the model's evaluate (normalise) satisfy the one-sided domain conditions *)
+Lemma normalised_in_domain (k : list R) p per1 tol from_right t0 t side : 0 < tol ->
+  @normalise R NumR k p per1 tol from_right t0 = Some (t, side) ->
+  after_start side (@b_start R NumR (mkBasis p k per1)) t /\ before_end side t (@b_end R NumR (mkBasis p k per1)).
+Proof.
+  intros Htol EN. destruct (normalise_range k p per1 tol Htol from_right t0 t side EN) as [Hr Hs].
+  unfold after_start, before_end, b_start, b_end. cbn [b_knots b_order]. destruct side; lra.
+Qed.
+
+(* ---------------- non-vacuity: a cubic periodic basis, 8 functions, continuity 2, uniform knots ---------------- *)
+Definition ex_knots : list R := [-3; -2; -1; 0; 1; 2; 3; 4; 5; 6; 7; 8; 9; 10; 11].
+
+Example ex_canon : per_canon ex_knots 4 3 8 8.
+Proof.
+  unfold per_canon. split.
+  { apply Proofs.RaiseNested.sorted_kn_lsorted. unfold ex_knots. repeat (constructor; try lra). }
+  split; [lia|]. split; [lia|]. split; [reflexivity|]. split; [lia|]. split; [lra|]. split; [reflexivity|].
+  intros i Hi. cbn [length ex_knots] in Hi.
+  do 7 (destruct i as [|i]; [unfold kn, ex_knots; cbn; lra|]). lia.
+Qed.
+
+(* the three cases occur: x = 9/2 is interior, x = 1/2 lies in the first and x = 15/2 in the last per1 spans *)
+Example ex_domain x : 0 <= x < 8 ->
+  @b_start R NumR (mkBasis 4 ex_knots 3) <= x < @b_end R NumR (mkBasis 4 ex_knots 3).
+Proof. unfold b_start, b_end, kn, ex_knots. cbn. lra. Qed.
+Example ex_interior : @kn R NumR ex_knots (4 + 3 - 1) <= 9/2 < @kn R NumR ex_knots 8.
+Proof. unfold kn, ex_knots. cbn. lra. Qed.
